@@ -15,6 +15,7 @@ import (
 	sdk "github.com/cosmos/cosmos-sdk/types"
 	banktypes "github.com/cosmos/cosmos-sdk/x/bank/types"
 	"github.com/ethereum/go-ethereum/common"
+	ethtypes "github.com/ethereum/go-ethereum/core/types"
 
 	"github.com/teleport-network/teleport/syscontracts"
 	agentcontract "github.com/teleport-network/teleport/syscontracts/xibc_agent"
@@ -73,13 +74,23 @@ func runHistory(r *core.Run, cid string, L int) {
 		m.dsts[n.Name] = true
 	}
 	m.checkAll("init")
+	// before anything was sent (all counters at 1): a PacketSent log naming ANOTHER chain as source, for every path
+	for _, a := range s.W.Nodes {
+		for _, b := range s.W.Nodes {
+			if a != b {
+				m.hookProbeOn(a, b, 0)
+			}
+		}
+	}
 	for i := 0; i < L; i++ {
 		x := rng.Intn(100)
 		switch {
 		case x < 35:
 			m.validSend()
-		case x < 60:
+		case x < 57:
 			m.invalidSend()
+		case x < 60:
+			m.hookProbe()
 		case x < 66:
 			m.multiSend()
 		case x < 70:
@@ -397,6 +408,78 @@ func (m *mon) multiSend() {
 	}
 	o := s.DeliverEth(src, what, tx)
 	m.observeSend(src, what, o, pkt.SendSpec{Src: src, Dst: dst, User: s.W.Admin})
+}
+
+// hookProbe hands the send hook a PacketSent log the packet contract would not emit in this state (foreign source chain,
+// wrong or zero sequence, unknown destination, source = destination, no data) in a receipt of its own, on a discarded
+// branch. The hook is the chain-side gate for whatever the contract logs: it must refuse every one of them (its error is
+// what reverts the EVM transaction).
+func (m *mon) hookProbe() {
+	src, dst := m.s.RandNodePair()
+	m.hookProbeOn(src, dst, -1)
+}
+
+func (m *mon) hookProbeOn(src, dst *core.Node, force int) {
+	s := m.s
+	var third string
+	for _, n := range s.W.Nodes {
+		if n != src && n != dst {
+			third = n.Name
+		}
+	}
+	good := packettypes.Packet{SrcChain: src.Name, DstChain: dst.Name, Sequence: m.nextOf(key(src, dst.Name)), Sender: pkt.LowerHex(s.RandUser().Eth), TransferData: []byte{}, CallData: []byte{1}, CallbackAddress: "", FeeOption: 0}
+	p := good
+	variant := ""
+	pickV := s.Rng.Intn(6)
+	if force >= 0 {
+		pickV = force
+	}
+	switch pickV {
+	case 0:
+		p.SrcChain, p.Sequence = third, 1
+		variant = "foreign-source"
+	case 1:
+		p.Sequence += 1 + uint64(s.Rng.Intn(3))
+		variant = "sequence-ahead"
+	case 2:
+		p.Sequence = 0
+		variant = "sequence-zero"
+	case 3:
+		p.DstChain, p.Sequence = "no-such-chain", 1
+		variant = "unknown-destination"
+	case 4:
+		p.DstChain = src.Name
+		variant = "destination-is-self"
+	case 5:
+		p.CallData = []byte{}
+		variant = "no-data"
+	}
+	bz, err := p.ABIPack()
+	if err != nil {
+		return
+	}
+	ev := core.PacketABI.Events[packettypes.PacketSendEvent]
+	data, err := ev.Inputs.Pack(bz)
+	if err != nil {
+		return
+	}
+	receipt := &ethtypes.Receipt{Status: 1, Logs: []*ethtypes.Log{{Address: core.PacketAddr, Topics: []common.Hash{ev.ID}, Data: data}}}
+	to := core.EndpointAddr
+	msg := ethtypes.NewMessage(s.RandUser().Eth, &to, 0, big.NewInt(0), 1_000_000, big.NewInt(0), big.NewInt(0), big.NewInt(0), nil, nil, false)
+	cctx, _ := src.Ctx().CacheContext()
+	var herr error
+	perr, panicked := core.Catch(func() error {
+		herr = src.App.XIBCKeeper.PacketKeeper.Hooks().PostTxProcessing(cctx, msg, receipt)
+		return nil
+	})
+	m.r.Eval(fmt.Sprintf("%s/%d/hook-probe/%s", m.cid, len(s.Log), variant), true)
+	m.r.Count("hook_probes/"+variant, 1)
+	switch {
+	case panicked:
+		m.r.Violation(m.cid, "hook/panic-on-PacketSent-log/"+variant, map[string]interface{}{"panic": perr.Error()})
+	case herr == nil:
+		m.r.Violation(m.cid, "hook/PacketSent-log-the-contract-would-not-emit-accepted/"+variant, map[string]interface{}{"packet": fmt.Sprintf("%s/%s/%d", p.SrcChain, p.DstChain, p.Sequence), "chain": src.Name, "next_sequence": good.Sequence})
+	}
 }
 
 // nestedSend: a packet a->b whose call data makes the agent contract on b send the received tokens on to a third
